@@ -143,6 +143,8 @@ def collect_verus_units(prop, repo, scratch, only=None):
         all_props = set(props_unit)
         for v in extra.values():
             all_props.update(v)
+        if sc.get('c06', True) and sc.get('kind', 'single') in ('single', 'multi'):
+            all_props.add('C06')
         if sc.get('kind', 'single') in ('single', 'multi'):
             all_props.add('C04') if sc.get('error_is_c04', True) else None
         if prop not in all_props:
@@ -193,7 +195,9 @@ def collect_verus_units(prop, repo, scratch, only=None):
         for fn in g['fn_names']:
             short = fn[len(op) + 1:] if fn.startswith(op + '_') else fn
             ps = set(extra.get(short, props_unit))
-            if short == 'error' and sc.get('error_is_c04', True):
+            if short.endswith('_c06'):
+                ps = {'C06'}
+            elif short.endswith('error') and sc.get('error_is_c04', True):
                 ps = ps | {'C04'}
             if prop not in ps:
                 continue
@@ -208,9 +212,18 @@ def collect_verus_units(prop, repo, scratch, only=None):
             obls.append(o)
         # lemmas named in the sidecar
         for ln in sc.get('lemmas', []):
-            o = Obl('%s.V.%s.%s' % (prop, op, ln), 'verus', 'verus/z3', sorted(props_unit), unit=op, fn=ln)
+            lps = set(extra.get(ln, props_unit))
+            if prop not in lps:
+                continue
+            o = Obl('%s.V.%s.%s' % (prop, op, ln), 'verus', 'verus/z3', sorted(lps), unit=op, fn=ln)
             o.status, o.detail, o.seconds = classify_verus_fn(r, ln)
             obls.append(o)
+        for fact, (ok, why) in g.get('definite_facts', {}).items():
+            if prop in props_unit or prop == 'C06':
+                o = Obl('%s.S.%s.%s' % (prop, op, fact), 'syntactic', 'rxprep', sorted(props_unit | {'C06'}), unit=op, where=sc['file'])
+                o.status = 'discharged' if ok else 'failed'
+                o.detail = '' if ok else why
+                obls.append(o)
         # skeleton obligation (syntactic)
         o = Obl('%s.S.%s.skeleton' % (prop, op), 'syntactic', 'rxprep', sorted(props_unit), unit=op, where=sc['file'])
         if g['skeleton_problems']:
